@@ -989,6 +989,11 @@ func subjects() []*subject {
 	kg := rlwe.NewKeyGenerator(p)
 	gk := kg.GenGaloisKeyNew(f.galEls[0], f.sk)
 	rlk := kg.GenRelinearizationKeyNew(f.sk)
+	// keys with a base-two decomposition carry it in a header field of their own
+	baseTwo := 8
+	gk2 := kg.GenGaloisKeyNew(f.galEls[0], f.sk, rlwe.EvaluationKeyParameters{BaseTwoDecomposition: &baseTwo})
+	rlk2 := kg.GenRelinearizationKeyNew(f.sk, rlwe.EvaluationKeyParameters{BaseTwoDecomposition: &baseTwo})
+	evk2 := kg.GenEvaluationKeyNew(f.sk, f.sk, rlwe.EvaluationKeyParameters{BaseTwoDecomposition: &baseTwo})
 	poly := detPoly(p.RingQ(), 43)
 	out = append(out,
 		&subject{name: "rlwe.Ciphertext", orig: ct, ops: deepOps(), copies: []copyKind{{"CopyNew", false, true, func(o interface{}) interface{} { return o.(*rlwe.Ciphertext).CopyNew() }}}},
@@ -996,6 +1001,9 @@ func subjects() []*subject {
 		&subject{name: "rlwe.SecretKey", orig: f.sk.CopyNew(), ops: deepOps(), copies: []copyKind{{"CopyNew", false, true, func(o interface{}) interface{} { return o.(*rlwe.SecretKey).CopyNew() }}}},
 		&subject{name: "rlwe.PublicKey", orig: f.pk.CopyNew(), ops: deepOps(), copies: []copyKind{{"CopyNew", false, true, func(o interface{}) interface{} { return o.(*rlwe.PublicKey).CopyNew() }}}},
 		&subject{name: "rlwe.GaloisKey", orig: gk, ops: deepOps(), copies: []copyKind{{"CopyNew", false, true, func(o interface{}) interface{} { return o.(*rlwe.GaloisKey).CopyNew() }}}},
+		&subject{name: "rlwe.GaloisKey/base2", orig: gk2, ops: deepOps(), copies: []copyKind{{"CopyNew", false, true, func(o interface{}) interface{} { return o.(*rlwe.GaloisKey).CopyNew() }}}},
+		&subject{name: "rlwe.RelinearizationKey/base2", orig: rlk2, ops: deepOps(), copies: []copyKind{{"CopyNew", false, true, func(o interface{}) interface{} { return o.(*rlwe.RelinearizationKey).CopyNew() }}}},
+		&subject{name: "rlwe.EvaluationKey/base2", orig: evk2, ops: deepOps(), copies: []copyKind{{"CopyNew", false, true, func(o interface{}) interface{} { return o.(*rlwe.EvaluationKey).CopyNew() }}}},
 		&subject{name: "rlwe.RelinearizationKey", orig: rlk, ops: deepOps(), copies: []copyKind{{"CopyNew", false, true, func(o interface{}) interface{} { return o.(*rlwe.RelinearizationKey).CopyNew() }}}},
 		&subject{name: "rgsw.Ciphertext (GadgetCiphertext)", orig: &rct.Value[0], ops: deepOps(), copies: []copyKind{{"CopyNew", false, true, func(o interface{}) interface{} { return o.(*rlwe.GadgetCiphertext).CopyNew() }}}},
 		&subject{name: "ring.Poly", orig: &poly, ops: deepOps(), copies: []copyKind{{"CopyNew", false, true, func(o interface{}) interface{} { return o.(*ring.Poly).CopyNew() }}}},
